@@ -72,31 +72,47 @@ Theorem C19_cache_once_const : forall (server : N -> str) f pre c p mid c2 p2,
 Proof. exact cache_once_const. Qed.
 Print Assumptions C19_cache_once_const.
 
-(* ---- round 7: the limit is chosen per call (client.api_key may change between calls) ---- *)
-(* ANY history, the key free to change at every call: no half-open one-second window [x, x + W), x any integer tick (hence any
-   real x: the starts are integer ticks), contains more than the larger limit of request starts; failed requests count as starts *)
+(* ---- round 7: the limit is chosen per call (client.api_key may change between calls); wait_before_request since fix a09a4a0 ---- *)
+(* with one key setting the code (runF: trim the record to the last N stamps, then wait) is the one-limit machine of the theorems above *)
+Theorem C19_const_key_is_run : forall key cs, Forall call_ok cs -> runF (map (pair key) cs) = run (limit key) window cs.
+Proof. exact runF_const. Qed.
+Print Assumptions C19_const_key_is_run.
+
+Theorem C19_trim_noop_when_fits : forall N W s c, (length (dq s) <= N)%nat -> stepF N W s c = step N W s c.
+Proof. exact stepF_same. Qed.
+Print Assumptions C19_trim_noop_when_fits.
+
+(* ANY history of key switches: every request starts at least one window after the request N places before it, N being the limit
+   in force for THAT request (3 without key, 10 with) *)
+Theorem C19_rate_limit_current_key : forall pre kc, Forall (fun x => call_ok (snd x)) (pre ++ [kc]) ->
+  let h := hist (runF (pre ++ [kc])) in
+  forall b, nth_error h (limit (fst kc)) = Some b -> hd 0 h - b >= window.
+Proof. exact repaired_rate_limit. Qed.
+Print Assumptions C19_rate_limit_current_key.
+
+(* ... hence the window statement when the key changes inside a window: at the moment a request starts, every half-open
+   one-second window [x, x + W) (x any tick) that contains this start holds at most N starts so far, N the limit of THIS request's
+   key. So a window whose last request is keyless holds at most 3 starts in all, no window holds 4 keyless starts (the 4th
+   would be the last of a window with 4), and a window may hold up to 10 only if its last request carries the key *)
+Theorem C19_window_limit_current_key : forall pre kc x, Forall (fun c => call_ok (snd c)) (pre ++ [kc]) ->
+  let h := hist (runF (pre ++ [kc])) in
+  in_window window x (hd 0 h) = true -> (count_in_window window x h <= limit (fst kc))%nat.
+Proof. exact window_limit_current_key. Qed.
+Print Assumptions C19_window_limit_current_key.
+
+(* ... and for a complete history: never more than the larger limit in any window; failed requests count as starts *)
 Theorem C19_window_limit_any_key : forall cs x, Forall (fun kc => call_ok (snd kc)) cs ->
-  (count_in_window window x (hist (run2 cs)) <= limit true)%nat.
-Proof. exact window_limit_mixed. Qed.
+  (count_in_window window x (hist (runF cs)) <= limit true)%nat.
+Proof. exact window_limit_any_key_F. Qed.
 Print Assumptions C19_window_limit_any_key.
 
-(* a key added later: the keyless requests (a prefix) obey the small limit, the whole history the large one *)
-Theorem C19_key_added_later : forall a b x, Forall call_ok a -> Forall call_ok b ->
-  let h1 := hist (run2 (map (pair false) a)) in
-  let h := hist (run2 (map (pair false) a ++ map (pair true) b)) in
-  (count_in_window window x h1 <= limit false)%nat /\ (count_in_window window x h <= limit true)%nat /\
-  exists new, h = new ++ h1 /\ length new = length b.
-Proof. exact key_added_later. Qed.
-Print Assumptions C19_key_added_later.
-
-(* a key REMOVED from a client that has used it: the deque never shrinks, and more than the keyless limit of keyless requests
-   start within one window (PENDING FIX keyswitch) *)
-Theorem C19_key_removed_refuted :
-  exists pre post x, forallb call_okb (pre ++ post) = true /\
-    let h := hist (run2 (map (pair true) pre ++ map (pair false) post)) in
-    (limit false <? count_in_window window x (firstn (length post) h))%nat = true.
-Proof. exact key_removed_refuted. Qed.
-Print Assumptions C19_key_removed_refuted.
+(* the history that defeated the code before the fix (F53: ten keyed requests, key removed, ten keyless calls one second later -
+   all ten started at once) is limited to three per second *)
+Theorem C19_key_removed_limited :
+  rev (hist (runF (map (pair true) (repeat c0 10) ++ map (pair false) ({| gap := 1024; eps := 0; dur := 0 |} :: repeat c0 9))))
+  = repeat 0 10 ++ [1024; 1024; 1024; 2048; 2048; 2048; 3072; 3072; 3072; 4096].
+Proof. exact repaired_key_removed. Qed.
+Print Assumptions C19_key_removed_limited.
 
 (* sleep is called exactly when the popleft branch is taken and the popped stamp is younger than the window (any state) *)
 Theorem C19_wait_sleeps_iff : forall N W d t e, 0 <= e ->
@@ -116,8 +132,8 @@ Print Assumptions C19_sleep_iff_window_full.
 (* non-vacuity: a history that switches the key on and off *)
 Example C19_witness_keys :
   let cs := [(false, c0); (true, c0); (true, c0); (true, c0); (false, c0); (false, c0)] in
-  Forall (fun kc => call_ok (snd kc)) cs /\ rev (hist (run2 cs)) = [0; 0; 0; 0; 1024; 1024].
-Proof. exact witness_keys. Qed.
+  Forall (fun kc => call_ok (snd kc)) cs /\ rev (hist (runF cs)) = [0; 0; 0; 0; 1024; 1024].
+Proof. exact witness_keys_F. Qed.
 
 (* ---- round 7: the whole client (run_C19_client): fetch_seq decision table, histories, reader oracle, file names ---- *)
 (* complete decision table of fetch_seq for one id: what is requested, written, returned and recorded, for every combination of
@@ -134,7 +150,7 @@ Theorem C19_fetch_decision_table : forall s o id a,
              else match fn with Some n => RName n | None => RHandle [] end) /\
   (need = false -> s' = s) /\
   (need = true -> let c := {| gap := c_pend s; eps := a_eps a; dur := a_dur a |} in
-       c_rate s' = step (limit (o_key o)) window (c_rate s) c /\ c_pend s' = 0 /\ c_calls s' = (o_key o, c) :: c_calls s /\
+       c_rate s' = stepF (limit (o_key o)) window (c_rate s) c /\ c_pend s' = 0 /\ c_calls s' = (o_key o, c) :: c_calls s /\
        e_start e = hd 0 (hist (c_rate s')) /\ e_slept e = hd 0 (slept (c_rate s'))).
 Proof. exact fetch_one_table. Qed.
 Print Assumptions C19_fetch_decision_table.
@@ -234,6 +250,12 @@ Theorem C19_fname_absolute_id : forall p i e, starts_with_slash i = true -> fnam
 Proof. exact fname_absolute_id. Qed.
 Print Assumptions C19_fname_absolute_id.
 
+Example C19_witness_client :
+  forallb op_okb [w_op; w_op] = true /\
+  map (map e_req) (snd (do_ops (cl_init []) [w_op; w_op])) = [[true]; [false]] /\
+  cnt (is_req (bs "R/p0/AB0001.1.fasta"%bs)) (concat (snd (do_ops (cl_init []) [w_op; w_op]))) = 1%nat.
+Proof. exact witness_client. Qed.
+
 (* the requests of the whole client are a limiter history: any history of public calls (cache hits in between, failing requests,
    key switches) has no one-second window with more than the larger limit of starts; with one key setting, that setting's limit *)
 Theorem C19_client_window_limit : forall f ops x, forallb op_okb ops = true ->
@@ -263,11 +285,20 @@ Theorem C19_client_starts_window_const : forall key f ops x, forallb op_okb ops 
 Proof. exact client_starts_window_const. Qed.
 Print Assumptions C19_client_starts_window_const.
 
-Example C19_witness_client :
-  forallb op_okb [w_op; w_op] = true /\
-  map (map e_req) (snd (do_ops (cl_init []) [w_op; w_op])) = [[true]; [false]] /\
-  cnt (is_req (bs "R/p0/AB0001.1.fasta"%bs)) (concat (snd (do_ops (cl_init []) [w_op; w_op]))) = 1%nat.
-Proof. exact witness_client. Qed.
+(* a request of the client sleeps iff, after trimming the record to the last N stamps (N the limit of this call's key), there are
+   N of them and the oldest is younger than the window; a cache hit never sleeps and leaves the client untouched *)
+Theorem C19_client_sleep_iff : forall s o id a, 0 <= a_eps a ->
+  need_request (c_fs s) (cache_name o id) (o_ow o) = true ->
+  let e := snd (fetch_one s o id a) in let t := now (c_rate s) + c_pend s in
+  let d := dq (trim (limit (o_key o)) (c_rate s)) in
+  e_slept e <> 0 <-> (limit (o_key o) <= length d)%nat /\ exists prev rest, d = prev :: rest /\ t - prev < window.
+Proof. exact client_sleep_iff. Qed.
+Print Assumptions C19_client_sleep_iff.
+
+Theorem C19_cache_hit_no_sleep : forall s o id a, need_request (c_fs s) (cache_name o id) (o_ow o) = false ->
+  fst (fetch_one s o id a) = s /\ e_req (snd (fetch_one s o id a)) = false /\ e_slept (snd (fetch_one s o id a)) = 0.
+Proof. exact cache_hit_no_sleep. Qed.
+Print Assumptions C19_cache_hit_no_sleep.
 
 (* non-vacuity: a burst of five immediate calls without API key; the 4th must wait a full window *)
 Example C19_witness :
